@@ -160,6 +160,13 @@ def build():
                   var("D", shape="unit")])
     enum("FamS2", [var("Ab", shape="unit"), var("Aa", [F("field0", u8)], shape="tuple")], True)
     enum("FamS3", [var("Ab", shape="unit"), var("Aa", [F("field0", u8)], shape="tuple"), var("Zz", shape="unit")], True)
+    # sorted constructors whose byte order differs from any case-insensitive / "natural" order: 'B' < 'a', '1' < '_' < 'b'
+    enum("FamC2", [var("DBError", [F("field0", s)], shape="tuple"), var("Apple", shape="unit")], True)
+    enum("FamC3", [var("DBError", [F("field0", s)], shape="tuple"), var("Apple", shape="unit"), var("Data", [F("d", u8)])], True)
+    enum("FamC4", [var("DBError", [F("field0", s)], shape="tuple"), var("Apple", shape="unit"), var("Data", [F("d", u8)]),
+                   var("aardvark", shape="unit")], True)
+    enum("ESortMix", [var("A_b", shape="unit"), var("Ab", [F("field0", u8)], shape="tuple"), var("A1", shape="unit"),
+                      var("a", [F("x", u8)]), var("Z", shape="unit")], True)
     # an enum nested in an evolved struct, a struct nested in a variant
     e3 = ("named", [d["name"] for d in D].index("E3"), "E3")
     rec("HasEnum", [F("e", e3), F("k", u8), F("n", ("opt", e3))], [("add", "n", "(0)"), ("rem", "w")])
